@@ -44,6 +44,9 @@ def gen_trace(seed, world, tier, mode=None):
     cond = 10.0 ** R.choice([0, 1, 1, 2, 3])
     A = {"gen": "psvd", "m": m, "n": n, "seed": R.randrange(10 ** 6),
          "sigma": [round_sig(v) for v in logspace_sigma(R, k, cond)]}
+    sc = R.choice([0, 0, 0, 0, -3, 3, -6, 6, -9, 9])     # "for all full-rank inputs": any uniform scale
+    if sc:
+        A = {"gen": "scale", "of": A, "c": 10.0 ** sc}
     tol = 10.0 ** -R.choice([3, 4, 5, 6, 7, 8])
     budget = R.choice([5, 50, 50, 400]) if tier == "quick" else R.choice([5, 50, 400, 1000])
     cfg_seed = R.choice([None, None, R.randrange(1000)])
@@ -83,7 +86,7 @@ def gen_trace(seed, world, tier, mode=None):
     if cfg_seed is not None:
         cfg["seed"] = cfg_seed
     call = {"k": "call", "obj": "s0", "meth": meth, "args": [A],
-            "tags": {"kind": kind, "m": m, "n": n, "cond": cond, "wrong_orientation": wrong}}
+            "tags": {"kind": kind, "m": m, "n": n, "cond": cond, "wrong_orientation": wrong, "scale": sc}}
     x = R.random() if mode is None else {"plain": 0.1, "clock": 0.55, "spd": 0.65, "jitter": 0.75, "sweep": 0.9}[mode]
     if x < 0.45:
         pass
@@ -307,7 +310,7 @@ def signature(trace, result):
     cfg = sw["cfg"] if sw else next((s["cfg"] for s in trace["steps"] if s["k"] == "new"), {})
     t = call.get("tags", {})
     ev = tuple((s["k"], s.get("op")) for s in trace["steps"] if s["k"] in ("rng", "clock"))
-    return repr((t.get("kind"), t.get("m"), t.get("n"), t.get("cond"), sorted(cfg.items(), key=str),
+    return repr((t.get("kind"), t.get("m"), t.get("n"), t.get("cond"), t.get("scale"), sorted(cfg.items(), key=str),
                  "+".join(sorted(call.get("fault") or {})), bool(call.get("clock")), bool(sw), ev))
 
 
